@@ -415,6 +415,15 @@ pub async fn exec_naming(id: &'static str, script: Value) -> ExecResult {
                     }
                 }
                 prev_count = counts.clone();
+                // the persistent set (what the real snapshot builder writes) equals the non-ephemeral instances - also
+                // during the run, at every fifth step once the node has been quiet for a moment
+                if (i % 5 == 4 || cfg.disk_p_delay > 0.0) && rest == 0 {
+                    let recs = snapshot_records(&n, "nm-mid").await.map_err(|e| Violation::new("C11.observe_failed", e.to_string()))?;
+                    let persisted = recs.iter().filter(|r| r.0.contains("NAMING_INSTANCE")).count();
+                    let non_eph: usize = all.values().map(|l| l.iter().filter(|x| !x.ephemeral).count()).sum();
+                    vensure!(persisted == non_eph, "C11.persistent_set", "after step {} ({:?}): {} persistent-instance records are written into a snapshot but {} non-ephemeral instances are registered", i, st, persisted, non_eph);
+                    sim::count("probe.persistent_set_checked_mid_run", 1);
+                }
             }
             if id == "C12" {
                 for s in 0..3u8 {
@@ -629,6 +638,14 @@ impl Check for C11 {
         // half of the histories also contain messages of a peer node (cluster-sync origins)
         let bias = if Rng::derive(seed, "C11.bias", 0).chance(0.5) { "sync" } else { "mixed" };
         let steps = gen_nsteps(&mut rng, n, bias);
+        // a third of the runs: slow disk, so that the Raft round trip of a persistent instance takes tens of
+        // milliseconds and the registry is observed while it is under way (persistent set checked after every step)
+        let mut cfg = cfg;
+        let mut rd = Rng::derive(seed, "C11.disk", 0);
+        if rd.chance(0.33) {
+            cfg.disk_p_delay = 0.7;
+            cfg.disk_max_delay_us = *rd.pick(&[5_000u64, 30_000, 80_000]);
+        }
         json!({"check": "C11", "seed": seed, "cfg": cfg, "steps": steps})
     }
     fn execute(&self, script: Value) -> LocalFut<ExecResult> {
